@@ -27,7 +27,7 @@ Drops == {"take_scalar", "isel_scalar", "mean", "sum", "std", "var", "median"}
 CarriesAttrs == {"take_scalar_keepdims", "isel_scalar_keepdims", "take_scalar", "take_list", "take_slice", "take_position", "isel_scalar", "sel_list", "take_axis", "take_axis_wrap", "take_axis_clip", "sort_axis",
                  "reindex_axis", "reindex_fill", "reindex_left", "reindex_right", "interp_axis", "interp_axis_oob"}
 Whole == {"add_ds", "mul_scalar", "rsub_scalar", "neg", "stack_ds", "concatenate_ds", "construct_misaligned",
-          "add_ds_misaligned", "sub_ds_misaligned", "stack_ds_align", "concatenate_ds_align", "concatenate_ds_align_pos",
+          "add_ds_misaligned", "sub_ds_misaligned", "stack_ds_align", "stack_ds_align_sort_same", "concatenate_ds_align", "concatenate_ds_align_pos",
           "concatenate_ds_mismatch"}
 \* concatenate_ds_mismatch: the second Dataset carries the labels of x and y in another order (same lengths).  Without align=True
 \* a variable that has the concatenation dimension d and another of those dimensions cannot be joined: the call must be
@@ -48,7 +48,7 @@ Choose ==
        \/ \E o \in Whole :
             /\ in' = [vars |-> vs, op |-> o, d |-> IF Len(dd) > 0 THEN dd[1] ELSE "", byname |-> TRUE]
             /\ out' = [affected |-> [i \in 1..n |-> TRUE],
-                       dims |-> IF o \in {"stack_ds", "stack_ds_align"} THEN <<"k">> \o dd ELSE dd, attrs |-> FALSE, pervar |-> TRUE,
+                       dims |-> IF o \in {"stack_ds", "stack_ds_align", "stack_ds_align_sort_same"} THEN <<"k">> \o dd ELSE dd, attrs |-> FALSE, pervar |-> TRUE,
                        rejects |-> Rejects(o, vs, IF Len(dd) > 0 THEN dd[1] ELSE "")]
   /\ (Emit => PrintT(ToJson([op |-> "dataset_op", in |-> in', out |-> out'])))
 Next == Choose
